@@ -1,6 +1,6 @@
 (* Props/C07.v -- the property theorems of C07 (compile-time evaluation agrees with run-time
    evaluation), and nothing else.  Each is closed by [exact] of a lemma proved in C07/. *)
-From C07 Require Import Rt ConstEval Fold ConstEvalProofs.
+From C07 Require Import Rt ConstEval Fold ConstEvalProofs CastProofs FoldProofs.
 
 (* For every const-evaluable operator of the corelib (neg add sub mul div rem and or xor == != < <= > >=
    div_rem) on every numeric type (u8..u128, u256, i8..i128, felt252) and ALL operands the type's
@@ -33,6 +33,68 @@ Theorem C07_const_bool : forall o a b,
   const_beval o (cbool a) (cbool b) = CVal (cbool (beval o a b)).
 Proof. exact const_beval_agrees. Qed.
 
+(* conversions: Into (upcast, T_to_felt252, uN -> u256, felt252 -> u256 through u128s_from_felt252),
+   TryInto (downcast, T_try_from_felt252 incl. felt252_for_downcast, u128_try_from_felt252),
+   TryInto<T, NonZero<T>> (T_is_zero) and the generic bounded_int::downcast: for every value of the
+   source type's literal range the const value is the image of the run-time result
+   (never a diagnostic: conversions do not panic).
+   Not covered: u256 -> uN / felt252 (corelib code run by the interpreter; explored by h07). *)
+Theorem C07_const_cast : forall k From To x,
+  cast_supported k From To = true -> lit_range From x ->
+  cnorm To (const_cast k From To x) = repr_cast k From To (rt_cast k From To (enc From x)).
+Proof. exact const_cast_agrees. Qed.
+
+(* const folding of calls: whatever the folder substitutes for a felt252 add/sub/mul (a constant, or
+   one of the inputs for x+0, 0+x, x-0, x*1, 1*x, and 0 for x*0) is the value of the libfunc, for every
+   run-time value of the operands it does not know; exact integer libfuncs likewise. *)
+Theorem C07_fold_call : forall f ka kb o a b,
+  (f = FeltAdd \/ f = FeltSub \/ f = FeltMul) ->
+  fold_call f [ka; kb] = Some o -> agrees_felt ka a -> agrees_felt kb b ->
+  (denote_f o a b) mod P = rt_felt f a b.
+Proof. exact fold_felt_sound. Qed.
+
+Theorem C07_fold_call_int : forall f ka kb o a b,
+  fold_call f [ka; kb] = Some o -> agrees ka a -> agrees kb b ->
+  match f with
+  | WideMul => denote_f o a b = a * b
+  | BIAdd => denote_f o a b = a + b
+  | BISub => denote_f o a b = a - b
+  | DivRem => 0 <= a -> 0 < b ->
+              match o with FConst2 q r => q = a / b /\ r = a mod b | _ => False end
+  | _ => True
+  end.
+Proof. exact fold_int_sound. Qed.
+
+(* felt252_div: x/1 and 0/x unconditionally; literal/literal under the hypothesis that the model's
+   finv r is an inverse of r (Fermat for the prime P is not proved here -- the hypothesis is checked
+   by computation on every case of the correspondence run) *)
+Theorem C07_fold_call_div_partial : forall ka kb o a b,
+  fold_call FeltDiv [ka; kb] = Some o -> agrees_felt ka a -> agrees_felt kb b ->
+  (forall l r, ka = Some l -> kb = Some r -> (finv r * (r mod P)) mod P = 1) ->
+  is_quotient a b ((denote_f o a b) mod P).
+Proof. exact fold_felt_div_sound_partial. Qed.
+
+(* const folding of matches: the arm the folder jumps to and the value it binds there are the arm the
+   libfunc takes and the value it yields at run time: is_zero, eq (incl. the rewrite of x == 0 to
+   is_zero), uN overflowing add/sub, iN overflowing add/sub (three arms), iN_diff, with
+   TypeRange::normalized; x+0 / 0+x / x-0 with an unknown x; downcast of a known value (incl. from
+   felt252) and the range-subsumption rewrite for an unknown value; bounded_int_constrain, trim_min/max.
+   Not covered: the inc/dec rewrite for x+-1 (no arithmetic is folded there). *)
+Theorem C07_fold_match : forall f args vals m,
+  fold_match f args = Some m -> wf_match f args vals ->
+  denote_m m vals = rt_match f vals.
+Proof. exact fold_match_sound. Qed.
+
+Theorem C07_identity_rewrites : forall x, 0 <= x < P ->
+  fold_call FeltAdd [None; Some 0] = Some (FVar 0) /\ fold_call FeltAdd [Some 0; None] = Some (FVar 1) /\
+  fold_call FeltSub [None; Some 0] = Some (FVar 0) /\
+  fold_call FeltMul [None; Some 1] = Some (FVar 0) /\ fold_call FeltMul [Some 1; None] = Some (FVar 1) /\
+  fold_call FeltMul [None; Some 0] = Some (FConst 0) /\ fold_call FeltMul [Some 0; None] = Some (FConst 0) /\
+  fold_call FeltDiv [None; Some 1] = Some (FVar 0) /\ fold_call FeltDiv [Some 0; None] = Some (FConst 0) /\
+  fadd x 0 = x /\ fadd 0 x = x /\ fsub x 0 = x /\ fmul x 1 = x /\ fmul 1 x = x /\
+  fmul x 0 = 0 /\ fmul 0 x = 0 /\ is_quotient x 1 x /\ (forall y, is_quotient 0 y 0).
+Proof. exact identity_rewrites. Qed.
+
 (* boundary operands *)
 Example C07_ex_min_div_m1 :
   const_eval_full ODiv I8 (-128) (-1) = CErr LiteralOutOfRange /\
@@ -45,6 +107,26 @@ Example C07_ex_u8_overflow :
   const_eval_full OAdd U8 255 1 = CErr LiteralOutOfRange /\
   eval OAdd U8 255 1 = Panic [str "u8_add Overflow"].
 Proof. split; reflexivity. Qed.
+(* felt252 wrap-around in a downcast: P - 1 is -1 *)
+Example C07_ex_felt_downcast :
+  const_cast KTryInto Felt I8 (P - 1) = CVal (CEnum 0 (CInt (-1))) /\
+  rt_cast KTryInto Felt I8 (P - 1) = Ok (ROpt (Some (-1))) /\
+  const_cast KTryInto Felt U8 (-1) = CVal (CEnum 1 cunit) /\
+  fold_match (Downcast true None (rng I8) false) [Some (P - 128)] = Some (MArm 0 (Some (-128))) /\
+  fold_match (Downcast true None (rng I8) false) [Some (P - 129)] = Some (MArm 1 None).
+Proof. repeat split; vm_compute; reflexivity. Qed.
+(* the Over arm of signed addition is arm 2, Under is arm 1; normalized wraps by 2^n *)
+Example C07_ex_iadd_arms :
+  fold_match (IAdd I8) [Some 127; Some 1] = Some (MArm 2 (Some (-128))) /\
+  fold_match (IAdd I8) [Some (-128); Some (-1)] = Some (MArm 1 (Some 127)) /\
+  fold_match (UAdd U8) [Some 255; Some 1] = Some (MArm 1 (Some 0)) /\
+  wf_match (IAdd I8) [Some 127; Some 1] [127; 1].
+Proof.
+  split; [reflexivity|]. split; [reflexivity|]. split; [reflexivity|].
+  cbn [wf_match]. split; [reflexivity|]. split.
+  - repeat constructor.
+  - repeat constructor; cbv; congruence.
+Qed.
 Example C07_ex_hyps : supported ODivRem I128 = true /\ lit_range I128 (tmin I128) /\
   lit_range I128 (-1) /\ lit_range Felt (1 - P).
 Proof. repeat split; cbv; congruence. Qed.
@@ -52,3 +134,9 @@ Proof. repeat split; cbv; congruence. Qed.
 Print Assumptions C07_const_eval.
 Print Assumptions C07_error_iff_panic.
 Print Assumptions C07_const_bool.
+Print Assumptions C07_const_cast.
+Print Assumptions C07_fold_call.
+Print Assumptions C07_fold_call_int.
+Print Assumptions C07_fold_call_div_partial.
+Print Assumptions C07_fold_match.
+Print Assumptions C07_identity_rewrites.
